@@ -87,9 +87,9 @@ Print Assumptions C08_old_deadlocks.
 
 (** The trace-inclusion checker used by checks/C08.py on hook-H2 traces of the real server only executes steps of
     the LTS: an accepted event sequence is the observable projection of a run. *)
-Theorem C08_trace_checker_sound : forall (P : Type) (pol : policy) (evs : list ev) (pos : nat) (s : st P) (b : bool),
-  accepts pol evs pos s = Accepted b -> exists tr s', run pol tr s = Some s' /\ final_b s' = b.
+Theorem C08_trace_checker_sound : forall (P : Type) (od : bool) (pol : policy) (evs : list ev) (pos : nat) (s : st P) (b : bool),
+  accepts od pol evs pos s = Accepted b -> exists tr s', run pol tr s = Some s' /\ final_b s' = b.
 Proof. exact @accepts_sound. Qed.
-Check C08_trace_checker_sound : forall (P : Type) (pol : policy) (evs : list ev) (pos : nat) (s : st P) (b : bool),
-  accepts pol evs pos s = Accepted b -> exists tr s', run pol tr s = Some s' /\ final_b s' = b.
+Check C08_trace_checker_sound : forall (P : Type) (od : bool) (pol : policy) (evs : list ev) (pos : nat) (s : st P) (b : bool),
+  accepts od pol evs pos s = Accepted b -> exists tr s', run pol tr s = Some s' /\ final_b s' = b.
 Print Assumptions C08_trace_checker_sound.
